@@ -89,7 +89,9 @@ impl Sem for CpxSem {
             "div" => { if b == (0.0, 0.0) { return Err(Stop::Unspec("ComplexDivisionByZero")); }
                        self.flags.inexact(1e-12); let z = div(a, b);
                        if !(z.0.is_finite() && z.1.is_finite()) { return Err(Stop::Unspec("NonFiniteComplexResult")); } Ok(z) }
-            "pow" => { self.cut(near_real_below(a, 0.0))?;
+            "pow" => { // a whole real exponent makes the power single-valued: both sides of the cut of ln give the same product
+                       let whole = b.1 == 0.0 && b.0.fract() == 0.0 && b.0.abs() <= 64.0 && a != (0.0, 0.0);
+                       if !whole { self.cut(near_real_below(a, 0.0))?; }
                        if self.flags.tol.get() > 0.0 && !(modulus(b) <= 1e2) { return Err(Stop::Unspec("ErrorAmplificationAfterInexactOperation")); }
                        self.t(powc(a, b)) }
             _ => Err(Stop::Err("operator not offered")),
